@@ -22,6 +22,11 @@ Definition extract_dao (bs : list N) : dao :=
   mkDao (le_decode (firstn 8 (skipn 8 bs))) (le_decode (firstn 8 bs))
         (le_decode (firstn 8 (skipn 16 bs))) (le_decode (firstn 8 (skipn 24 bs))).
 
+(* the byte ranges of c, ar, s, u *)
+Definition dao_field_ranges : list (nat * nat) := [(0, 8); (8, 16); (16, 24); (24, 32)]%nat.
+Definition read_range (bs : list N) (r : nat * nat) : N :=
+  le_decode (firstn (snd r - fst r) (skipn (fst r) bs)).
+
 Definition dao_eqb (a b : dao) : bool :=
   ((d_ar a =? d_ar b) && (d_c a =? d_c b) && (d_s a =? d_s b) && (d_u a =? d_u b))%N.
 
@@ -133,6 +138,38 @@ Definition apply_block (live : live_set) (txs : list tx) : live_set :=
   remove_cells (all_inputs txs) (live ++ all_outputs txs).
 Definition occupied_of (l : list cell) : N := fold_right (fun c a => (c_occupied c + a)%N) 0%N l.
 Definition capacity_of (l : list cell) : N := fold_right (fun c a => (c_capacity c + a)%N) 0%N l.
+
+(* the dao fields along a chain: [blocks] = (epoch, transactions) of the blocks
+   at heights h, h+1, ...; returns the last field and the live set *)
+Fixpoint dao_run (sec : N) (parent : dao) (live : live_set) (h : N)
+         (blocks : list (epoch_ext * list tx)) : option (dao * live_set) :=
+  match blocks with
+  | [] => Some (parent, live)
+  | (e, txs) :: bs =>
+    d <- dao_field sec e parent h txs ;; dao_run sec d (apply_block live txs) (h + 1)%N bs
+  end.
+
+(* primary + secondary issuance of these blocks, unbounded sum *)
+Fixpoint issuance_run (sec : N) (h : N) (blocks : list (epoch_ext * list tx)) : option N :=
+  match blocks with
+  | [] => Some 0%N
+  | (e, _) :: bs =>
+    p <- ee_block_reward e h ;; g2 <- ee_secondary_block_issuance e h sec ;;
+    rest <- issuance_run sec (h + 1)%N bs ;; Some (p + g2 + rest)%N
+  end.
+
+(* a block is applicable to a live set: cell ids are unique, every input is a
+   live cell or an output of the block, no cell is spent twice *)
+Definition cell_ids (l : list cell) : list N := map c_id l.
+Definition block_applicable (live : live_set) (txs : list tx) : Prop :=
+  NoDup (cell_ids (live ++ all_outputs txs)) /\
+  NoDup (cell_ids (all_inputs txs)) /\
+  incl (all_inputs txs) (live ++ all_outputs txs).
+Fixpoint chain_applicable (live : live_set) (blocks : list (epoch_ext * list tx)) : Prop :=
+  match blocks with
+  | [] => True
+  | (_, txs) :: bs => block_applicable live txs /\ chain_applicable (apply_block live txs) bs
+  end.
 
 (* ---- full blocks ---------------------------------------------------------------- *)
 Record fblock := mkFB {
